@@ -7,10 +7,14 @@ import numpy as np
 import common as C
 
 PID = "C15"
-DRIVER = [("C15", ["TfPwaV.Gen.LineShapeF", "TfPwaV.Model.Bessel"], "(LineShapeF.handle rest).orElse fun _ => Bessel.handle rest")]
-LEAN_TARGETS = ["TfPwaV.Props.C15", "TfPwaV.Props.C15b", "TfPwaV.Gen.LineShapeF", "TfPwaV.Model.Bessel"]
-PROP_MODULES = ["TfPwaV.Props.C15", "TfPwaV.Props.C15b"]
-ALL_MODULES = ["TfPwaV.Model.Bessel", "TfPwaV.Proofs.LineShape", "TfPwaV.Props.C15", "TfPwaV.Props.C15b", "TfPwaV.Proofs.ScalarR"]
+DRIVER = [("C15", ["TfPwaV.Gen.LineShapeF", "TfPwaV.Model.Bessel"], "(LineShapeF.handle rest).orElse fun _ => Bessel.handle rest"),
+          ("C15x", "TfPwaV.Gen.LineShapeXF", "LineShapeF.handleX"),
+          ("C15i", "TfPwaV.Gen.InterpAmpF", "InterpAmpF.handle")]
+LEAN_TARGETS = ["TfPwaV.Props.C15", "TfPwaV.Props.C15b", "TfPwaV.Props.C15c", "TfPwaV.Props.C15d", "TfPwaV.Gen.LineShapeF", "TfPwaV.Gen.LineShapeXF",
+                "TfPwaV.Gen.InterpAmpF", "TfPwaV.Model.Bessel"]
+PROP_MODULES = ["TfPwaV.Props.C15", "TfPwaV.Props.C15b", "TfPwaV.Props.C15c", "TfPwaV.Props.C15d"]
+ALL_MODULES = ["TfPwaV.Model.Bessel", "TfPwaV.Proofs.LineShape", "TfPwaV.Props.C15", "TfPwaV.Props.C15b", "TfPwaV.Props.C15c", "TfPwaV.Props.C15d",
+               "TfPwaV.Proofs.ScalarR"]
 ASSUMPTIONS = [
     "IEEE double evaluation of the same formula text (Lean Float vs TensorFlow) agrees to 1e-10 relative to |value| (observed worst 5e-13); inputs where |P_L(z)| < 1e-4 sum|c_i z^i| (near a real zero of the Blatt-Weisskopf polynomial at negative q^2) are counted as ill-conditioned and skipped; mass grids stay >= 1.5e-3 (relative) away from two-body thresholds",
     "theorems are over the reals (Mathlib R and C) with Lean's totalised division: at an exactly vanishing denominator both sides of an `_eq_spec` theorem are 0 while IEEE gives NaN/inf; such inputs are outside the claim (hypotheses name the denominator where a theorem needs it)",
@@ -19,6 +23,10 @@ ASSUMPTIONS = [
     "MultiBWR (sum_k c_ik / (m_k^2 - m^2 - i m_k Gamma_k) times barrier, any list lengths) and BWR_below (q0^2 from the documented ad-hoc mass) are proved on top of BWR2_eq_spec; how Particle.get_amp obtains |q|^2, the parent mass and m3 from the decay chain is tied by correspondence only",
     "sympy denominators are evaluated numerically with sympy.lambdify(numpy) and compared with the Float instance of the Lean *_dom functions (BW, BWR, BWR_coupling, BWR_LS, Flatte, FlatteC) and with 1/lineShape of the implementation; sympy itself (incl. its principal branch sqrt(-x) = i sqrt(x) used for Flatte below a channel threshold) is not verified; the Lean dom_reciprocal theorems are about the Lean *_dom functions",
     "Known findings are attributed by key only when the listed variant (conjugate / m-over-m0 / float32 constant) reproduces the implementation at 2e-9 on every deviating point; any other deviation of the same model is reported as <model>:value",
+    "round 3 (FlatteGen, Flatte2, LASS, MultiBW, Kmatrix, KMatrixSingleChannel, KmatrixSimple): FlatteGen cut_phsp - the docstring zeroes q_i where the radicand is negative, the code where m < ma+mb; proved equivalent for m > |ma-mb| (flatteGen_cut_condition), the correspondence/oracle grid of cut_phsp configurations stays above |ma-mb|. LASS: the docstring's a, r are read as |a|, |r| (the code applies tf.abs). KMatrixSingleChannel evaluates a sympy expression after sympy.together + cse: the Lean function is the un-reordered P/(1 - iK) (agreement 1e-10 on grids 2e-3 away from the poles); below threshold the momentum is the clamped get_relative_p (= 0). KmatrixSimple: Lean model for one and two channels (adjugate instead of tf.linalg.inv; grids 2e-2 away from poles/thresholds), three channels by the numpy oracle only; the docstring's `+ i epsilon` is read as the code's `- i epsilon` (epsilon = 1e-10, Feynman prescription; difference 2e-10/|m_a^2 - s| relative). Kmatrix (amp/base.py) has no docstring: its specification is the production-vector form proved in kmBetaTerm_eq_P / Kmatrix_eq_form",
+    "interpolation family: the Float correspondence evaluates Particle.__call__ on seeded uniform (min_m/max_m/interp_N) and non-uniform (points=) node sets, at the nodes themselves for the models with explicit comparisons (interp, interp_c, interp_hist, interp1d3, interp_l3, interp_lagrange, spline_c); the index-based models (hist_idx, spline_c_idx, sppchip, linear_npy/txt) stay 1e-6 (relative) off the nodes because tf.histogram_fixed_width_bins rounds (m - lo)/width and tf.raw_ops.Bucketize keeps its `boundaries` attribute in float32 (node positions rounded at 6e-8) - the bin lookup itself (Bucketize / histogram_fixed_width_bins) is modelled as 'number of nodes <= m' and is NOT verified at the nodes; errors of interpolants are measured relative to max(|value|, max |node value|) (they pass through zero). hist_idx outside the node range wraps around (not documented; correspondence only); with_bound=True is exercised for spline_c / spline_c_idx only (interp_c, interp_hist, interp1d3, interp_lagrange raise a shape error and hist_idx an index error with it - configuration errors, not values)",
+    "spline tables: spline_xi_matrix is run on 5 small-rational node sets (4, 5, 6, 8 uniform nodes and 6 non-uniform); each float64 entry is replaced by the nearest rational with denominator <= 1e7 (distance < 1e-11 checked on every run, else broke) and the Lean theorems spline_tables_ok / splineC_at_nodes are about these rationals; np.linalg.inv inside spline_xi_matrix and the seeded node sets of the correspondence are covered by the scipy CubicSpline(bc_type='not-a-knot') oracle at 2e-9 only",
+    "registry inventory: every module of tf_pwa.amp is imported and config.get_config('particle_model') is read, plus a textual scan of tf_pwa/**/*.py for @register_particle / @regist_particle / @simple_resonance decorators with a literal name; a model registered under a computed name in a module outside tf_pwa.amp that nobody imports is not seen",
 ]
 LMAX = 8
 TOL_X = 1e-10   # Lean Float vs implementation (same formula text; observed worst 5e-13)
@@ -115,8 +123,11 @@ def translate(ctx, res):
         res.notes.append(n)
     if notes:
         res.broke("translator: Bprime table not representable", notes[:5])
-    return {"BprimeTable": {"tfCoeff": {L: [str(c) for c in v] for L, v in tf_tab.items()},
+    info = {"BprimeTable": {"tfCoeff": {L: [str(c) for c in v] for L, v in tf_tab.items()},
                             "symCoeff": {L: [str(c) for c in v] for L, v in sym_tab.items()}}}
+    import c15_x
+    info.update(c15_x.translate_x(ctx, res))  # spline coefficient tables (Gen/SplineTable.lean)
+    return info
 
 
 # --------------------------------------------------------------------------------------------
@@ -352,7 +363,10 @@ def coupling_is_f32():
 
 
 def observe():
-    return {"bwr2_fixed": bwr2_is_fixed(), "gs32": gs_is_f32(), "cp32": coupling_is_f32()}
+    import c15_x
+    obs = {"bwr2_fixed": bwr2_is_fixed(), "gs32": gs_is_f32(), "cp32": coupling_is_f32()}
+    obs.update(c15_x.observe_x())  # multibw_bw, i1d3_fixed
+    return obs
 
 
 def gen_cfg(rng, L):
@@ -604,8 +618,12 @@ def sympy_dom_eval(p, m, **kw):
     return np.asarray(fn(np.asarray(m, dtype=np.complex128), *vals), dtype=np.complex128) * np.ones(len(m))
 
 
-def rel_err(a, b):
-    return np.abs(a - b) / np.maximum(np.abs(b), 1e-300)
+def rel_err(a, b, scale=None):
+    """|a-b| relative to |b|; with `scale` (interpolants, which pass through zero) relative to max(|b|, scale)"""
+    den = np.maximum(np.abs(b), 1e-300)
+    if scale is not None:
+        den = np.maximum(den, scale)
+    return np.abs(a - b) / den
 
 
 # --------------------------------------------------------------------------------------------
@@ -698,6 +716,8 @@ def make_cases(seed, quick, obs):
     rng = np.random.Generator(np.random.Philox(seed))
     fcs = function_cases(rng, quick, obs)
     pcs = list(cases_for(rng, quick, obs))
+    import c15_x
+    pcs += c15_x.cases_x(seed, quick, obs, obs)  # round 3: the rest of the registry (own generators: earlier cases unchanged)
     return fcs, pcs
 
 
@@ -707,6 +727,11 @@ def correspond(ctx, res):
     res.notes.append("implementation observed (selects the model variant it is compared with): BWR2 returns %s; GS constants %s; BWR_coupling normalisation %s" % (
         "1/(x - i y) (documented)" if obs["bwr2_fixed"] else "(x - i y)/(x^2+y^2) (conjugate of documented)",
         "float32-rounded" if obs["gs32"] else "double", "float32" if obs["cp32"] else "double"))
+    res.notes.append("MultiBW.get_ls_amp uses %s; get_matrix_interp1d3 stencil loop %s" % (
+        "BW (documented)" if obs["multibw_bw"] else "BWR2 (inherited from MultiBWR; dom_fun never called)",
+        "range(i-2, i+2)" if obs["i1d3_fixed"] else "range(i-1, i+3) (node i attached to the wrong intervals)"))
+    import c15_x
+    c15_x.inventory(res)
     fcs, pcs = make_cases(ctx.seed + 15, ctx.quick, obs)
     ctx.c15_cases = (fcs, pcs)
     lines = []
@@ -771,11 +796,13 @@ def correspond(ctx, res):
             note("fn:formula.Bprime_polynomial-table", err2, ok, lambda i, f=f: {"L": f["L"], "op": f["lines"][i]})
     for c in pcs:
         n = len(c["m"])
+        if not c["lean"]:  # oracle-only model / configuration outside the Lean model (search only)
+            continue
         k = c.get("lean_multi")
         vals = [parse_c(out[c["o"] + i]) for i in range(n)]
         for j, iv in enumerate(c["impl"]):
             mv = np.array([v[j] for v in vals])
-            err = rel_err(mv, iv)
+            err = rel_err(mv, iv, c.get("tol_scale"))
             ok = np.isfinite(err)
             neval += n
             note("particle:" + c["model"], err, ok, lambda i, c=c, mv=mv, iv=iv, j=j: {"cfg": c["cfg"], "m": float(c["m"][i]), "component": j, "impl": str(iv[i]), "model": str(mv[i]), "op": c["lean"][i][:300]})
@@ -788,7 +815,7 @@ def correspond(ctx, res):
         "traces_validated_against_impl": neval - nskip,
         "evaluations": neval,
         "distinct_nontrivial": int(sum(v for k_, v in per.items() if not k_.endswith((":one", ":x")))),
-        "rule": "seeded random (m1,m2 in [0.1,1], m0 above threshold, Gamma0 in [0.005,0.5], d in {3, U(0.5,5)}) x L=0..8 x mass grids incl. m=m0, threshold*(1+2e-3) and below-threshold q^2<0 for the q^2-based functions; every tf_pwa.breit_wigner function and Particle.__call__/get_amp/get_ls_amp of 18 registered models + 6 sympy denominators; non-trivial = all but the constant models one/x",
+        "rule": "seeded random (m1,m2 in [0.1,1], m0 above threshold, Gamma0 in [0.005,0.5], d in {3, U(0.5,5)}) x L=0..8 x mass grids incl. m=m0, threshold*(1+2e-3) and below-threshold q^2<0 for the q^2-based functions; every tf_pwa.breit_wigner function and Particle.__call__/get_amp/get_ls_amp of 18 registered models + 6 sympy denominators; round 3: 7 further line shapes (FlatteGen/Flatte2 x 7 option sets x 1-3 channels x l<=4, LASS, MultiBW, Kmatrix, KMatrixSingleChannel 1-3 poles, KmatrixSimple 1-2 channels x 1-3 poles) and 12 interpolation models on uniform + non-uniform node sets (N = 5, 8 quick; 4..11 thorough) incl. the nodes themselves and points outside the range; non-trivial = all but the constant models one/x",
         "per_target": per,
         "ill_conditioned_skipped": nskip,
         "worst_rel_err": worst,
@@ -809,7 +836,7 @@ def correspond(ctx, res):
 _WORST = [0.0]
 
 
-def judge(impl, spec, variants, conj_key, ok=None, tol=TOL_S, track=True):
+def judge(impl, spec, variants, conj_key, ok=None, tol=TOL_S, track=True, scale=None):
     """Compare with the documented value.  Returns None if every (well-conditioned) point agrees, otherwise
     (key_or_None, index, rel_err): key = the known variant (listed behaviour) that explains ALL deviating points,
     None when no listed variant does."""
@@ -817,7 +844,7 @@ def judge(impl, spec, variants, conj_key, ok=None, tol=TOL_S, track=True):
     if ok is None:
         ok = np.ones(len(impl), dtype=bool)
     ok = ok & np.isfinite(spec)
-    e = rel_err(impl, spec)
+    e = rel_err(impl, spec, scale)
     bad = ok & ~(e < tol)
     good = ok & (e < tol)
     if good.any() and not variants and not conj_key and track:
@@ -829,7 +856,7 @@ def judge(impl, spec, variants, conj_key, ok=None, tol=TOL_S, track=True):
     if conj_key:
         cands = [(conj_key, "returns the complex conjugate of the documented value", np.conj(spec))] + cands
     for key, what, alt in cands:
-        ea = rel_err(impl, np.atleast_1d(alt))
+        ea = rel_err(impl, np.atleast_1d(alt), scale)
         if (ea[bad] < tol).all():
             return key, i, float(e[i]), what
     return None, i, float(e[i]), "differs from its documented formula"
@@ -894,10 +921,12 @@ def search(ctx, res):
         variants = list(c.get("variants", []))
         for j, (iv, sp) in enumerate(zip(c["impl"], c["spec"])):
             vj = [(k, w, alt[j]) for k, w, alt in variants]
-            r = judge(iv, sp, vj, c["conj_key"])
+            r = judge(iv, sp, vj, c["conj_key"], scale=c.get("tol_scale"))
             nchk += len(iv)
             if r is not None:
                 key, i, e, what = r
+                if key is None and c.get("any_key"):  # a model that does not follow its docstring at all (listed finding)
+                    key, what = c["any_key"]
                 fail(key or ("%s:value" % c["model"]), "%s %s: cfg %s m=%r component %d impl %s documented %s (rel %.3g)" % (
                     c["model"], what, c["cfg"], float(c["m"][i]), j, iv[i], sp[i], e),
                     {"kind": "particle", "model": c["model"], "cfg": c["cfg"], "m": float(c["m"][i]), "component": j})
@@ -966,7 +995,7 @@ def replay(ctx, payload):
 
 
 MANIFEST = {
-    "text": "Lean theorems over the reals / Mathlib complex numbers for ALL masses, widths, momenta, radii and every L<=8 (and any number of partial waves / channels / resonances), stated for the functions the current tree implements (BWR2 after repository commit a7b0d13, double-precision constants after 6f9a2f7): the Blatt-Weisskopf coefficient tables of breit_wigner.py and formula.py, re-extracted by running the real functions on every run, equal |theta_L(i w)|^2 of the reverse Bessel polynomial (exact integers, decide +kernel; plus BprimePolynomial(w^2) = normSq theta_L(i w) in C); Bprime(q0,q0)=1, Bprime_q2 = Bprime above threshold and positive below, Gamma = documented formula, Gamma(m0)=Gamma0; BW, BWR, BWR2, BWR_below, BWR_normal (principal root), BWR_coupling, BWR_LS(fix_bug1), MultiBWR, Flatte, FlatteC, exp, exp_com, one, x and GS_rho (including h, dh/dm^2, D, f of its docstring; dh_dsFun = d hFun/ds as HasDerivAt for equal daughter masses) equal their docstring formula as complex numbers; Im>0 and value i/(m0 Gamma0) at m0 for BW/BWR/BWR2; line shape x sympy denominator = 1 for BW, BWR, BWR_coupling, Flatte, FlatteC (all sheet bits set, real m above and below channel thresholds) and BWR_LS_dom = numeric denominator. Kept refutations: the BWR2 of the tree before a7b0d13 is PROVED to be the complex conjugate of the documented formula (BWR2legacy_*), and BWR_LS without fix_bug1 (the default, listed finding) to differ from its documentation.",
-    "note": "Model = templates/LineShape.lean.in instantiated at R (proofs) and Float (execution). Tie to the code: (T) coefficient tables extracted by running the real functions, theorem re-checked by lake build each run; (C) every tf_pwa.breit_wigner function, amp.core helpers, Particle.__call__/get_amp/get_ls_amp of 17 registered models (BW, BWR, default, BWR2, BWR_below, BWR_normal, BWR_coupling, BWR_LS, BWR_LS2, MultiBWR, GS_rho, Flatte, FlatteC, one, exp, exp_com, x) and 7 sympy denominators against the Float instance at 1e-10 on seeded grids, L=0..8; (S) an independent numpy evaluation of every docstring formula against the implementation at 2e-9. The harness observes which variant (BWR2 conjugated or not, float32 constants or not) the tree implements and compares with that Lean variant (BWR2 / BWR2legacy, flag f32), so a revert of either fix commit is reported under its own key. Not verified: Float rounding, TensorFlow kernels, sympy, how get_amp collects momenta/masses from the decay chain for BWR_below (correspondence only), GS at/below the two-pion threshold.",
-    "technique": "Lean 4 proof over R and C of one template instantiated at Float for differential correspondence with the implementation; translator-extracted tables checked by decide +kernel",
+    "text": "Lean theorems over the reals / Mathlib complex numbers for ALL masses, widths, momenta, radii and every L<=8 (and any number of partial waves / channels / resonances / poles), stated for the functions the current tree implements (BWR2 after repository commit a7b0d13, double-precision constants after 6f9a2f7): the Blatt-Weisskopf coefficient tables of breit_wigner.py and formula.py, re-extracted by running the real functions on every run, equal |theta_L(i w)|^2 of the reverse Bessel polynomial (exact integers, decide +kernel; plus BprimePolynomial(w^2) = normSq theta_L(i w) in C); Bprime(q0,q0)=1, Bprime_q2 = Bprime above threshold and positive below, Gamma = documented formula, Gamma(m0)=Gamma0; BW, BWR, BWR2, BWR_below, BWR_normal (principal root), BWR_coupling, BWR_LS(fix_bug1), MultiBWR, Flatte, FlatteC, exp, exp_com, one, x and GS_rho (including h, dh/dm^2, D, f of its docstring; dh_dsFun = d hFun/ds as HasDerivAt for equal daughter masses) equal their docstring formula as complex numbers; Im>0 and value i/(m0 Gamma0) at m0 for BW/BWR/BWR2; line shape x sympy denominator = 1 for BW, BWR, BWR_coupling, Flatte, FlatteC (all sheet bits set, real m above and below channel thresholds) and BWR_LS_dom = numeric denominator. Kept refutations: the BWR2 of the tree before a7b0d13 is PROVED to be the complex conjugate of the documented formula (BWR2legacy_*), and BWR_LS without fix_bug1 (the default, listed finding) to differ from its documentation. ROUND 3 (Props/C15c, C15d; every other registered model): FlatteGen / Flatte2 = 1/(m0^2 - m^2 + im_sign sum_i term_i) for every option setting and any number of channels, the default term = i g (q_i/m) m0 (m0/|q_i0|)(|q_i|/|q_i0|)^(2l) B_l'^2 (L<=8), cut_phsp term = 0 below the channel threshold and code/doc condition equivalent for m > |ma-mb|; LASS = m/(q cot d_B - i q) + e^(2 i d_B) m0 G0 (m0/q0)/((m0^2-m^2) - i m0 G0 (q/m)(m0/q0)) with |e^(2 i d_B)| = 1; MultiBW of the current tree is PROVED identical to MultiBWR (running width; listed finding) and the repaired one equals sum_k c_ik/(m_k^2 - m^2 - i m_k G_k) x barrier; Kmatrix = (beta0 + sum beta_i m_i G_i/(m_i^2-m^2))/(1 - i(K+alpha)) + KNR; KMatrixSingleChannel = P/(1 - iK) with every pole of K equal to m_i Gamma_i(m)/(m_i^2-m^2) (the running width of breit_wigner.Gamma), Im R = K Re R for real production couplings (any number of poles), elastic unitarity Im T = rho |T|^2 for T = K/(1 - i rho K); KmatrixSimple: K_ij = sum_a g_ia g_ja/(m_a^2 - s - i eps), one channel R = n P/(1 - i K rho n^2), two channels R_i = n_i x_i with (1 - i K rho n^2) x = P (adjugate solution proved to solve the system), the barrier factor is (q d)^l B'_l(q,1/d,d) (the docstring's q^l is a listed finding). Interpolation family: interp_c, interp_hist, interp1d3 / interp_l3, interp_lagrange, spline_c are linear in the node values for every node list and mass (R); on 6 exact rational node sets (4..8 nodes, uniform and non-uniform, decide +kernel over core Rat): the weights at the nodes are unit vectors (the interpolant passes through every choice of node values) and vanish outside the node range, the repaired interp1d3 stencil reproduces 1, x, x^2, x^3 while the stencil of the current tree is PROVED not to reproduce constants (weights sum to 17/16; listed finding); the spline coefficient tables spline_xi_matrix(nodes) re-extracted from the tree on every run satisfy the defining equations of the not-a-knot cubic spline exactly (interpolation, C1, C2, third-derivative continuity at the 2nd and last-but-one knot) and spline_c evaluated through them passes through the nodes; linear_npy is zero outside the node range. A registry inventory on every run reports any registered particle model that is neither modelled nor on the explicit no-documented-formula list.",
+    "note": "Model = templates/LineShape.lean.in + templates/LineShapeX.lean.in (round 3, same namespace) instantiated at R (proofs) and Float (execution), templates/InterpAmp.lean.in instantiated at R, Float and core Rat. Tie to the code: (T) coefficient tables (Blatt-Weisskopf, spline_xi_matrix) extracted by running the real functions, theorems re-checked by lake build each run; (C) every tf_pwa.breit_wigner function, amp.core helpers, Particle.__call__/get_amp/get_ls_amp of 35 registered models (round 1/2: BW, BWR, default, BWR2, BWR_below, BWR_normal, BWR_coupling, BWR_LS, BWR_LS2, MultiBWR, GS_rho, Flatte, FlatteC, one, exp, exp_com, x; round 3: Flatte2, FlatteGen, LASS, MultiBW, Kmatrix, KMatrixSingleChannel, KmatrixSimple, interp, interp_c, interp_hist, hist_idx, interp1d3, interp_l3, interp_lagrange, linear_npy, linear_txt, spline_c, spline_c_idx) and 7 sympy denominators against the Float instance at 1e-10 on seeded grids (observed worst 8e-15 for the round-3 models); (S) an independent numpy/scipy evaluation of every docstring formula against the implementation at 2e-9 (scipy CubicSpline not-a-knot, PchipInterpolator, np.interp, own Lagrange / K-matrix linear solves). The harness observes which variant the tree implements (BWR2 conjugated or not, float32 constants or not, MultiBW calling dom_fun or not, interp1d3 stencil range, KmatrixSimple docstring) and compares with that Lean variant, so the check is quiet on the unpatched tree (listed findings) and on the tree with fixes/C15-fix_multibw_dom_fun.diff, C15-fix_interp1d3_sppchip.diff, C15-fix_kmatrix_simple_doc.diff applied. Validated only (oracle, no Lean model): KMatrixSplitLS (does not follow its docstring: listed finding), sppchip (differs from PCHIP in three ways: listed finding), KmatrixSimple with >= 3 channels, hist_idx outside the node range, interp_l3 (no docstring; correspondence only). No documented closed formula (listed with a reason, not checked): Kpi_Swave, pipi_Swave (AmpGen ports). Not verified: Float rounding, TensorFlow kernels (linalg.inv, Bucketize, histogram_fixed_width_bins), sympy (together/cse of KMatrix_single), np.linalg.inv inside spline_xi_matrix beyond the 5 extracted node sets, how get_amp collects momenta/masses from the decay chain for BWR_below / Kmatrix (correspondence only), GS at/below the two-pion threshold, sympy denominators of FlatteGen/Flatte2.",
+    "technique": "Lean 4 proof over R and C of templates instantiated at Float for differential correspondence with the implementation and at core Rat for exact decide +kernel checks; translator-extracted tables (Blatt-Weisskopf coefficients, spline matrices) checked by decide +kernel; registry inventory",
 }
